@@ -137,6 +137,8 @@ Sites == <<
   S("heartbeat_type_after_reset", "hist_parse_record", Hist("reset"), <<24, 3, 3, 0, 4>>, 1, <<0, 1, 7>>, "0.hbt"),
   S("alert_level_after_hs", "hist_parse_record", Hist("hs"), <<21, 3, 1, 0, 2>>, 1, <<0>>, "0.sev"),
   S("alert_level_after_app", "hist_parse_record", Hist("app"), <<21, 3, 3, 0, 4, 1, 0>>, 1, <<90>>, "1.sev"),
+  S("alert_level_after_refused_cipher_list", "hist_parse_record", Hist("badlen"), <<21, 3, 3, 0, 2>>, 1, <<40>>, "0.sev"),
+  S("alert_description_after_nocopy_fragment", "hist_parse_record", Hist("nocopyfrag"), <<21, 3, 3, 0, 2, 2>>, 1, <<>>, "0.code"),
   S("alert_level_after_refused_handshake", "hist_parse_record", Hist("badhs"), <<21, 3, 3, 0, 2>>, 1, <<40>>, "0.sev"),
   S("client_hello_cipher_after_refused_type", "hist_parse_record", Hist("badct"), <<22, 3, 3>> \o BE16(4 + Len(ChPre) + 8) \o <<1>> \o BE24(Len(ChPre) + 8) \o ChPre \o <<0, 4, 0, 47>>, 2, <<1, 0>>, "0.m.ciphers.1"),
   S("heartbeat_type_after_refused_hello", "hist_parse_record", Hist("defrag+badhs"), <<24, 3, 3, 0, 4>>, 1, <<0, 1, 7>>, "0.hbt"),
@@ -173,9 +175,9 @@ Acc(site, v) ==
     [] site = "alert_level" -> v.sev [] site = "alert_description" -> v.code
     [] site = "alert_level_stateful_two_alerts" -> v[1].sev [] site = "alert_level_stateful_second_alert" -> v[2].sev
     [] site = "alert_description_stateful" -> v[1].code [] site = "heartbeat_type_stateful" -> v[1].hbt
-    [] site \in {"alert_level_after_ccs", "alert_level_after_hs", "alert_level_after_refused_handshake"} -> v[1].sev
+    [] site \in {"alert_level_after_ccs", "alert_level_after_hs", "alert_level_after_refused_handshake", "alert_level_after_refused_cipher_list"} -> v[1].sev
     [] site = "alert_level_after_app" -> v[2].sev
-    [] site \in {"alert_description_after_ccs_app"} -> v[1].code
+    [] site \in {"alert_description_after_ccs_app", "alert_description_after_nocopy_fragment"} -> v[1].code
     [] site \in {"client_hello_cipher_after_ccs", "client_hello_cipher_split_header", "client_hello_cipher_split_inside_field", "client_hello_cipher_after_refused_type"} -> v[1].m.ciphers[2]
     [] site = "client_hello_compression_after_alert" -> v[1].m.comp[2]
     [] site = "server_hello_cipher_after_defrag" -> v[1].m.cipher
